@@ -23,7 +23,7 @@ FUEL = 700
 CASE_TY = 'instr * list (ty * data)'
 PRELUDE = f'''
 Definition erase_obs (o : obs) : outcome :=
-  match o with ODone s => Done (map erase s) | OFailed v => Failed (erase v) | OError => Stuck | OOutOfFuel => OutOfFuel end.
+  match o with ODone s => Done (map erase s) | OFailed v => Failed (erase v) | OError => RtError | OOutOfFuel => OutOfFuel end.
 Definition ref_run (c : {CASE_TY}) : outcome :=
   ref_eval {FUEL} (fst c) (map (fun p => value_of_data (snd p)) (snd c)).
 Definition py_run' (c : {CASE_TY}) : obs := py_run {FUEL} (fst c) (snd c).
